@@ -1,14 +1,15 @@
 #!/bin/bash
 # build.sh [plain|asan] -> prints the build directory
 # Compiles /repo/src as it is *now* into /verif/build/<hash>/<flavour>; cached by
-# a hash over every source-ish file under /repo/src, shared under flock.
+# a hash over every source-ish file under /repo/src and the path of the tree (the drivers include headers from there),
+# shared under flock.
 set -e
 FLAV=${1:-plain}
 SRC=${VERIF_REPO:-/repo}/src
 TOP=$(dirname "$SRC")
 VERIF=/verif
 mkdir -p $VERIF/build
-H=$( (cd $SRC && ls *.c *.h *.erf *.yuck *.in 2>/dev/null | grep -v -e '-gp\.c$' -e '^version\.c$' | LC_ALL=C sort | xargs sha256sum; sha256sum $VERIF/harness/build.sh) | sha256sum | cut -c1-16)
+H=$( (cd $SRC && ls *.c *.h *.erf *.yuck *.in 2>/dev/null | grep -v -e '-gp\.c$' -e '^version\.c$' | LC_ALL=C sort | xargs sha256sum; sha256sum $VERIF/harness/build.sh; echo "$SRC") | sha256sum | cut -c1-16)
 B=$VERIF/build/$H/$FLAV
 if [ -f $B/.done ]; then echo $B; exit 0; fi
 exec 9>$VERIF/build/.lock
